@@ -92,12 +92,12 @@ def roundtrip(doc, fmt, entry, d):
         return text, ODMLReader(fmt, show_warnings=False).from_string(text)
     if entry == "file":
         ODMLWriter(fmt).write_file(doc, path)
-        with open(path) as fh:
+        with open(path, encoding="utf-8") as fh:
             text = fh.read()
         return text, ODMLReader(fmt, show_warnings=False).from_file(path)
     if entry == "saveload":
         odml.save(doc, path, fmt)
-        with open(path) as fh:
+        with open(path, encoding="utf-8") as fh:
             text = fh.read()
         return text, odml.load(path, fmt, show_warnings=False)
     data = {"Document": DictWriter().to_dict(doc), "odml-version": "1.1"}
@@ -192,7 +192,7 @@ def foreign_body(case):
         try:
             if case["via_file"]:
                 path = os.path.join(d, "foreign." + fmt.lower())
-                with open(path, "w") as fh:
+                with open(path, "w", encoding="utf-8") as fh:
                     fh.write(text)
                 loaded = ODMLReader(fmt, show_warnings=False).from_file(path)
             else:
@@ -214,16 +214,23 @@ def foreign_body(case):
 def plan(tier):
     if tier == "quick":
         return ([{"name": "rt%d" % i, "type": "rt", "n": 160, "depth": 3} for i in range(11)] +
-                [{"name": "foreign%d" % i, "type": "foreign", "n": 120, "depth": 2} for i in range(5)])
+                [{"name": "foreign%d" % i, "type": "foreign", "n": 120, "depth": 2} for i in range(5)] +
+                [{"name": "rt_ascii_locale", "type": "rt", "n": 80, "depth": 2, "env": "ascii_locale"},
+                 {"name": "foreign_ascii_locale", "type": "foreign", "n": 80, "depth": 2, "env": "ascii_locale"}])
     return ([{"name": "rt%d" % i, "type": "rt", "n": 3000, "depth": 4} for i in range(11)] +
-            [{"name": "foreign%d" % i, "type": "foreign", "n": 2500, "depth": 3} for i in range(5)])
+            [{"name": "foreign%d" % i, "type": "foreign", "n": 2500, "depth": 3} for i in range(5)] +
+            [{"name": "rt_ascii_locale%d" % i, "type": "rt", "n": 1000, "depth": 3, "env": "ascii_locale"}
+             for i in range(2)] +
+            [{"name": "foreign_ascii_locale%d" % i, "type": "foreign", "n": 1000, "depth": 3,
+              "env": "ascii_locale"} for i in range(2)])
 
 
 def run(shard, seed, ctx):
     if shard["type"] == "rt":
-        hyp.drive(ctx, "rt", cases(shard["depth"]), body, shard["n"], seed)
+        hyp.drive(ctx, "rt", hyp.in_env(cases(shard["depth"]), shard), body, shard["n"], seed)
     else:
-        hyp.drive(ctx, "foreign", foreign_cases(shard["depth"]), foreign_body, shard["n"], seed)
+        hyp.drive(ctx, "foreign", hyp.in_env(foreign_cases(shard["depth"]), shard), foreign_body,
+                  shard["n"], seed)
 
 
 def replay(kind, case):
